@@ -1,6 +1,8 @@
 #!/bin/sh
-# usage: seedtest.sh <seed-id> <prop>... : applies the seeded patch to /repo, runs the checks, reverts
+# usage: seedtest.sh <seed-id> <prop>... : applies the seeded patch to /repo, runs the checks, reverts.
+# Refuses to run when /repo has uncommitted changes (the revert would destroy them).
 id=$1; shift
+if [ -n "$(git -C /repo status --porcelain)" ]; then echo "seedtest: /repo has uncommitted changes; commit first"; exit 2; fi
 git -C /repo apply /verif/seeded/$id/patch.diff || exit 1
 for p in "$@"; do /verif/bin/check $p 2>&1 | cut -c1-330 | tail -6; done
 git -C /repo checkout -- .
